@@ -200,3 +200,78 @@ Proof.
     rewrite <- H. apply map_view_prop_not_on.
   - exact C0.
 Qed.
+
+(* the props ARGUMENT itself (after `{}` -> null and `{...e}` -> e) reads back as the denoted
+   contributions, provided a spread that ends up alone is not itself an object literal, `null`
+   or a generated call (it would be read as something else than a spread) *)
+Lemma flat_map_singleton {A B} (f : A -> list B) l y :
+  flat_map f l = [y] -> exists x, In x l /\ f x = [y].
+Proof.
+  induction l as [|a r IH]; cbn; [discriminate|]. intros H.
+  destruct (f a) as [|b [|c t]] eqn:EF.
+  - cbn in H. destruct (IH H) as [x [Hin Hx]]. exists x. split; [right; exact Hin|exact Hx].
+  - cbn in H. injection H as -> H. exists a. split; [left; reflexivity|exact EF].
+  - cbn in H. discriminate H.
+Qed.
+
+Theorem contribs_refine_arg E ic tag attrs s :
+  o_merge_props (e_opts E) = false ->
+  splice_vmodels attrs false = attrs ->
+  Forall (contrib_ok E ic tag attrs) attrs ->
+  (forall x e, In x attrs -> contribs_of E ic tag attrs x = [CSpread e] ->
+     view_arg e = [CSpread e] /\ e <> Null /\ match e with Call true _ _ _ _ => False | _ => True end) ->
+  view_contribs (r_attrs (transform_attrs E attrs ic s)) = fst (fst (spec_attrs E ic tag attrs)).
+Proof.
+  intros MP SP FA LONE.
+  destruct attrs as [|x0 xs] eqn:EA.
+  { reflexivity. }
+  rewrite <- EA in *.
+  assert (NE : attrs <> []) by (rewrite EA; discriminate).
+  destruct (contribs_fold E ic tag attrs attrs (mkAcc [] [] [] [] None false false false false false s) FA)
+    as [ps0 [P1 [P2 P3]]].
+  destruct (contribs_refine E ic tag attrs s MP SP FA NE) as [ps [H1 H2]].
+  rewrite H2, <- H1.
+  destruct ps as [|p [|q r]]; [reflexivity| |destruct p; reflexivity].
+  destruct p; try reflexivity.
+  (* a lone spread *)
+  assert (HC : fst (fst (spec_attrs E ic tag attrs)) = [CSpread p]).
+  { rewrite <- H1. reflexivity. }
+  (* which attribute it came from *)
+  clear P1 P2 P3 ps0.
+  assert (FM : exists x, In x attrs /\ contribs_of E ic tag attrs x = [CSpread p]).
+  { (* the contributions of the list are the concatenation of those of its attributes *)
+    unfold spec_attrs in HC. rewrite SP, MP in HC.
+    match type of HC with context [fold_left ?st attrs ?acc] =>
+      pose proof (spec_fold_plain E ic tag attrs st attrs) as SF end.
+    match type of SF with ?P -> _ => assert (HP : P) end.
+    { rewrite Forall_forall. intros a Hin segs run dirs slots. cbv beta iota zeta.
+      assert (CA : contrib_ok E ic tag attrs a) by (rewrite Forall_forall in FA; apply FA; exact Hin).
+      destruct CA as [NC _]. unfold contribs_of in *.
+      destruct (attr_spec E ic tag attrs a) as [[cs ds] sl]. cbn [fst] in *.
+      assert (OWN : match a with
+                    | Spread _ => false
+                    | _ => match cs with [COn _] => true | _ => false end
+                    end = false).
+      { destruct a; try (destruct cs as [|c0 [|c1 cr]]; try reflexivity; destruct c0; try reflexivity;
+                         exfalso; eapply NC; reflexivity). }
+      rewrite OWN. eexists. eexists. reflexivity. }
+    specialize (SF HP [] [] [] None).
+    match type of SF with context [fold_left ?st attrs ?acc] =>
+      destruct (fold_left st attrs acc) as [[[d' r'] dirs'] slots'] end.
+    destruct SF as [-> ->]. cbn [fst app] in HC.
+    unfold close_run in HC. rewrite MP in HC. cbn [app] in HC.
+    destruct (flat_map (contribs_of E ic tag attrs) attrs) as [|c0 cr] eqn:EF; [discriminate HC|].
+    cbn [join_segments map] in HC.
+    assert (EQ : c0 :: cr = [CSpread p]).
+    { destruct cr as [|c1 cr']; cbn in HC.
+      - destruct c0; cbn in HC; try discriminate HC.
+        + match type of HC with context [if ?b then _ else _] => destruct b end; discriminate HC.
+        + exact HC.
+      - discriminate HC. }
+    apply flat_map_singleton. rewrite EF. exact EQ. }
+  destruct FM as [x [Hin Hx]]. destruct (LONE x p Hin Hx) as [HV [HN HG]].
+  unfold view_contribs. cbn [view_arg map view_prop].
+  destruct p; try (rewrite HV; reflexivity); try (exfalso; apply HN; reflexivity).
+  match goal with |- context [Call ?b _ _ _ _] => destruct b; [contradiction HG|] end.
+  rewrite HV. reflexivity.
+Qed.
